@@ -20,7 +20,11 @@ from core import Case
 
 PID = "C17"
 LEAN_MODULES = ["MirProofs.Props.C17", "MirProofs.Props.C02_Hierarchy", "MirProofs.Props.C08_Hierarchy",
-                "MirProofs.Props.C12_Hierarchy"]
+                "MirProofs.Props.C12_Hierarchy", "MirProofs.Props.C17_Gen"]
+# the T-/L-measure kernels are REGENERATED from mir_eval/hierarchy.py on every run (translator part `hierarchy` ->
+# lean/MirGen/Hierarchy.lean) and proved equal to the hand model (Props/C17_Gen.lean); suite `gen_hierarchy` runs the
+# GENERATED definitions (driver op `gen.hierarchy`) against the real functions
+TRANSLATOR_PARTS = ["hierarchy"]
 RULE = ("stream E: boundaries on the 1/32 s lattice (half of the cases snapped to the frame grid), 1-4 levels, "
         "nested or independent, common span 1-8 s, frame_size in {1/4,1/2,1}, window in {None,fs,2fs,15}, both "
         "transitive settings, beta in {1/2,1,2}; non-trivial = at least one query frame has a reference triple "
@@ -468,6 +472,87 @@ SUITES = {
     "evaluate": suite_evaluate,
     "faults": suite_faults,
 }
+
+
+# ------------------------------------------------------------------------------------------------
+# the functions as REGENERATED from the source (driver op `gen.hierarchy`, lean/MirGen/Hierarchy.lean) vs the real
+# functions: exercises the translator's own semantic assumptions (lean/MirModel/PyHier.lean: np.unique with counts /
+# first indices, argsort + fancy indexing, defaultdicts of slices, itertools.combinations / tee, row slices of sparse
+# matrices, the fuel of the while loop, ...)
+
+def _retarget(case, fn, extra=()):
+    """a case of a hand-model suite asked of the generated definition instead"""
+    info = dict(case.info or {}, op="gen.hierarchy", fn=fn)
+    return Case("gen.hierarchy", [fn] + list(case.args) + list(extra), case.call, tol=case.tol, tag="gen " + case.tag,
+                info=info, nontrivial=case.nontrivial, post=case.post)
+
+
+def suite_gen_hierarchy(rng, tier, shard, nshards):
+    """exhaustive small rank vectors (all pairs of lists of length <= 2 (quick) / 3 (thorough) on {0,1,2} through
+    _count_inversions, all aligned pairs + both transitive values through _compare_frame_rankings), random longer ones
+    (gaps between levels, estimate longer / shorter), random matrices through _gauc (every window kind, shape
+    mismatch), _round / _hierarchy_bounds / _lca / _meet on lattice time stamps and the hierarchy / label streams, tmeasure / lmeasure on the hierarchy streams incl. structural and parameter faults"""
+    kmax = 2 if tier == "quick" else 3
+    lists = [list(t) for k in range(kmax + 1) for t in itertools.product(range(3), repeat=k)]
+    cases = []
+    for a, b in itertools.product(lists, lists):
+        cases.append(Case("gen.hierarchy", ["_count_inversions", a, b],
+                          lambda a=a, b=b: H._count_inversions(np.array(a, dtype=int), np.array(b, dtype=int)),
+                          tag="gen exhaustive _count_inversions", info={"fn": "_count_inversions", "a": a, "b": b},
+                          nontrivial=bool(a and b)))
+    for k in range(kmax + 2):
+        for ref in itertools.product(range(3), repeat=k):
+            for est in itertools.product(range(3), repeat=k):
+                for tr in (False, True):
+                    cases.append(_retarget(_cfr_case(list(ref), list(est), tr, np.uint8, "exhaustive"),
+                                           "_compare_frame_rankings"))
+    for k, c in enumerate(cases):
+        if k % nshards == shard:
+            yield c
+    for k, c in enumerate(suite_count_inversions(rng, "quick", shard, nshards)):
+        if tier != "quick" or k < 40:
+            yield _retarget(c, "_count_inversions")
+    for k, c in enumerate(suite_compare_frame_rankings(rng, "quick", shard, nshards)):
+        if tier != "quick" or k < 60:
+            yield _retarget(c, "_compare_frame_rankings")
+    for k, c in enumerate(suite_gauc(rng, "quick", shard, nshards)):
+        if c.op == "hierarchy._gauc" and (tier != "quick" or k < 60):
+            yield _retarget(c, "_gauc")
+    # stage 2: _round (numbers on the 1/32 s lattice incl. exact multiples of the frame size), _hierarchy_bounds (also no
+    # levels / only empty levels -> ValueError), _lca on the hierarchy stream of suite `lca` (one-level offsets included)
+    for _ in range(40 if tier == "quick" else 400):
+        fs = rng.choice(FRAME_SIZES)
+        t = Fr(rng.randint(0, 512), 32) if rng.random() < 0.7 else fs * rng.randint(0, 40)
+        yield Case("gen.hierarchy", ["_round", t, fs], lambda t=t, fs=fs: H._round(float(t), float(fs)),
+                   tag="gen _round fs=%s" % fs, info={"fn": "_round", "t": t, "fs": fs})
+    for k in range(40 if tier == "quick" else 400):
+        hier = gen_hier(rng, gen_span(rng), rng.choice(FRAME_SIZES))
+        if k % 10 == 0:
+            hier = [[] for _ in hier][:k % 3]        # no boundaries at all: min([]) raises
+        elif k % 10 == 1:
+            off = Fr(rng.randint(1, 64), 32)
+            hier = [[[a + off, b + off] for a, b in lv] for lv in hier]
+        yield Case("gen.hierarchy", ["_hierarchy_bounds", hier],
+                   lambda hier=hier: tuple(float(x) for x in H._hierarchy_bounds(arrs(hier))),
+                   tag="gen _hierarchy_bounds levels=%d" % len(hier), info={"fn": "_hierarchy_bounds", "hier": hier})
+    for c in suite_lca(rng, tier, shard, nshards):
+        yield _retarget(c, "_lca")
+    for c in suite_meet(rng, tier, shard, nshards):      # incl. fewer label levels, shorter / longer label lists
+        yield _retarget(c, "_meet")
+    # stage 3: the public functions on the existing hierarchy streams (valid pairs, structural faults, parameter faults)
+    for k, c in enumerate(suite_tmeasure(rng, "quick", shard, nshards)):
+        if tier != "quick" or k < 80:
+            yield _retarget(c, "tmeasure")
+    for k, c in enumerate(suite_lmeasure(rng, "quick", shard, nshards)):
+        if tier != "quick" or k < 50:
+            yield _retarget(c, "lmeasure")
+    for k, c in enumerate(suite_faults(rng, "quick", shard, nshards)):
+        if tier != "quick" or k < 30:
+            yield _retarget(c, "tmeasure" if c.op == "hierarchy.tmeasure" else "lmeasure")
+
+
+SUITES["gen_hierarchy"] = suite_gen_hierarchy
+
 # stream F: excerpts of the two-level hierarchy fixture files (and flat segment files as one-level hierarchies)
 from suites import fixtures as _FX  # noqa: E402
 if "hierarchy" in _FX.SUITES:
@@ -794,6 +879,13 @@ for _site in ("hierarchy:self", "hierarchy:relabel"):
 def classify(suite, d):
     """Map a disagreeing correspondence case to (site, oracle input) so the property is tried on it."""
     op, i = d["op"], d["info"]
+    if suite == "gen_hierarchy":
+        fn = (i or {}).get("fn")
+        if fn == "tmeasure":
+            return "hierarchy.tmeasure", {k: v for k, v in i.items() if k not in ("op", "fn")}
+        if fn == "lmeasure":
+            return "hierarchy.lmeasure", {k: v for k, v in i.items() if k not in ("op", "fn")}
+        return None
     if suite == "faults":
         return ("hierarchy.tmeasure/params" if op == "hierarchy.tmeasure" else "hierarchy.lmeasure/params"), i
     if op == "hierarchy.tmeasure":
